@@ -549,6 +549,7 @@ package table
 // route's prefix and the route's mask length is within the entry's range - ANY covering entry, so the decision is
 // made over all covering entries of the set (the walk over the supernets), not over the longest one alone
 //@ func (*PrefixCondition).Evaluate
+//@   tag C10
 //@   claims at-return
 //@   at-return requires r.IsValid() ==> called(Supernets)
 // from C10 "what is configured ... is what is evaluated": a next-hop list that cannot be turned into a condition is
@@ -562,6 +563,7 @@ package table
 // BEFORE the entry of the route that comes in is written - the two can share a key (a route re-submitted as a clone of
 // itself), and removing afterwards would remove what was just written
 //@ func (*Table).updateVPNIdx
+//@   tag C17
 //@   claims at-call
 //@   at-call t.vpnIdx.RegisterPath( requires called(UnregisterPath)
 //@   at-call t.vpnIdx.UnregisterPath( requires !called(RegisterPath)
